@@ -575,7 +575,9 @@ class ExprOps:
             ks = {atom_kind(a) for a in ety}
             if 'any' in ks or ks & {'list', 'tuple', 'dict'}:
                 raise Unsupported('membership in sequence of containers/unknown', node)
-            if self._has_eq(x) or any(self.repo.find_method(c, '__eq__') for c in self.ref_classes(ety)):
+            if x.kind == 'val' and self._has_eq(x) and not self.spec_mode:
+                x = self.narrow(x)
+            if (self._has_eq(x) or any(self.repo.find_method(c, '__eq__') for c in self.ref_classes(ety))) and not self.spec_mode:
                 raise Unsupported('membership with user-defined __eq__', node)
             bx = self.box(x)
             return "(exists ((j Int)) (and (<= 0 j) (< j (len %s)) (= (at %s j) %s)))" % (q, q, bx)
@@ -759,7 +761,17 @@ class ExprOps:
                 st.oblige(FALSE, 'KeyError', node.lineno)
                 raise PathInfeasible()
             if base.is_const:
-                raise Unsupported('subscript of constant dict', node)
+                items = base.extra['items']
+                hits = [self.py_eq(idx, k) for k, _ in items]
+                if not self.spec_mode:
+                    st.oblige(mk_or(*hits), 'KeyError', node.lineno)
+                    st.assume(mk_or(*hits), 'pc')
+                res = self.box(items[-1][1])
+                tys = set(items[-1][1].ty)
+                for h, (k, v) in list(zip(hits, items))[-2::-1]:
+                    res = mk_ite(h, self.box(v), res)
+                    tys |= set(v.ty)
+                return self.unbox(res, frozenset(tys), assume=False)
             if not self.spec_mode:
                 st.oblige(self.dict_has(base, idx), 'KeyError: key present', node.lineno)
             return self.dict_read(base, idx)
@@ -886,7 +898,19 @@ class ExprOps:
             st.env = saved
             return SV('list', elems=out, owned=True, ty=parse_ty('list'))
         if g.ifs:
-            return self.filter_comprehension(node, elt, g, it)
+            if isinstance(elt, ast.Name) and isinstance(g.target, ast.Name) and elt.id == g.target.id:
+                return self.filter_comprehension(node, elt, g, it)
+            if not isinstance(g.target, ast.Name):
+                raise Unsupported('filtered comprehension with a tuple target that also maps', node)
+            # [e(x) for x in xs if p(x)]  ==  [e(x) for x in [x for x in xs if p(x)]]
+            filt = self.filter_comprehension(node, g.target, g, it)
+            q = self.seq_of(filt)
+            ety = self.elem_ty(filt)
+            it = dict(concrete=None, count="(len %s)" % q, item=lambda j: self.unbox("(at %s %s)" % (q, j), ety), sv=filt, seq=q)
+        return self.map_comprehension(node, elt, g, it)
+
+    def map_comprehension(self, node, elt, g, it):
+        st = self.st
         # symbolic map: fresh sequence with a pointwise definition
         n = it['count']
         j = st.decls.bound_var('cj')
@@ -946,11 +970,10 @@ class ExprOps:
 
     def filter_comprehension(self, node, elt, g, it):
         """[x for x in xs if p(x)] over a symbolic sequence: a fresh sequence that is an order-preserving
-        sub-sequence of xs all of whose elements satisfy p.  (That *every* satisfying element is kept is not
-        expressed -- callers needing completeness must go through a contract.)"""
+        sub-sequence of xs made of exactly the elements that satisfy p."""
         st = self.st
-        if not (isinstance(elt, ast.Name) and isinstance(g.target, ast.Name) and elt.id == g.target.id) or st.decls.bound:
-            raise Unsupported('filtered comprehension that also maps', node)
+        if st.decls.bound:
+            raise Unsupported('filtered comprehension inside a quantified body', node)
         if 'seq' not in it:
             raise Unsupported('filtered comprehension over a derived iterable', node)
         src = it['seq']
@@ -982,11 +1005,31 @@ class ExprOps:
         n = "(len %s)" % q
         rng = mk_and(mk_le('0', j), mk_lt(j, n))
         fj = "(%s %s)" % (f, j)
+        # completeness: every element of xs that satisfies the filter is kept (ginv: its position in the result)
+        ginv = st.decls.bound_var('finv')
+        st.decls.fun(ginv, ['Int'], 'Int')
+        i = st.decls.bound_var('fi')
+        st.decls.bound.append(i)
+        saved2 = dict(st.env)
+        mark2 = len(st.pc)
+        try:
+            self.bind_target(g.target, it['item'](i))
+            conds_i = [self.cond(c)[0] for c in g.ifs]
+            side_i = [t for t, k in st.pc[mark2:] if k in ('wf', 'def', 'lib')]
+            if any(k not in ('wf', 'def', 'lib') for _, k in st.pc[mark2:]):
+                raise Unsupported('case split inside a comprehension filter', node)
+            del st.pc[mark2:]
+        finally:
+            st.decls.bound.pop()
+            st.env = saved2
+        gi = "(%s %s)" % (ginv, i)
+        st.assume("(forall ((%s Int)) (! (=> (and (<= 0 %s) (< %s %s) %s) (and (<= 0 %s) (< %s %s) (= (%s %s) %s))) :pattern ((at %s %s))))"
+                  % (i, i, i, it['count'], mk_and(*(side_i + conds_i)), gi, gi, n, f, gi, i, src, i), 'lib')
         st.assume(mk_and(mk_le('0', n), mk_le(n, it['count'])), 'lib')
         st.assume("(forall ((%s Int)) (! (=> %s (and (<= 0 %s) (< %s %s) (= (at %s %s) (at %s %s)) %s)) :pattern ((at %s %s))))"
                   % (j, rng, fj, fj, it['count'], q, j, src, fj, mk_and(*(side + conds)), q, j), 'lib')
         st.assume("(forall ((%s Int) (k Int)) (=> (and (<= 0 %s) (< %s k) (< k %s)) (< %s (%s k))))"
                   % (j, j, j, n, fj, f), 'lib')
-        self.lib_assumptions.add('filtered list comprehension: order-preserving sub-sequence whose elements satisfy the filter (completeness not modelled)')
+        self.lib_assumptions.add('filtered list comprehension: the order-preserving sub-sequence of exactly the elements that satisfy the filter')
         ety = refined.ty if refined.kind in ('ref', 'val') else self.elem_ty(it['sv'])
         return SV('list', seq=q, owned=True, ty=frozenset([('list', ety)]))
